@@ -53,6 +53,7 @@ func runC20(c *Ctx) {
 	checkFilesOrdering(c)
 	c.Rule("R20d", "planning does not mutate its input: the shared planning helpers (detachReferences, DetachCycles, SortChanges, dependencies) never store into a field of a schema object through a pointer (they work on struct copies); planning the same change set twice must see the same objects", 2)
 	checkPlanningPurity(c)
+	c.Rule("R20g", "no ambient input: functions reachable (CHA, static callees) from the planners, differs, HCL marshaller, file formatter and checksum never call the clock, a random source or the process environment (time.Now/Since, math/rand, crypto/rand, os.Getenv/Hostname/…); the only time-dependent output is the file name produced by the `now` template function, which is outside this set", 1)
 	c.Rule("R20e", ruleTextFileBytesOwned, 1)
 	checkFileBytesOwned(c, "R20e")
 	c.Rule("R20f", ruleTextNoInPlace, 10)
@@ -319,6 +320,41 @@ func checkNoSharedState(c *Ctx) {
 		p := objPkgPath(topParent(f))
 		return !strings.Contains(p, "/internal/migrate/ent") && !strings.HasSuffix(p, "parse")
 	})
+	// R20g: no ambient input (clock, randomness, environment, host) in the same reachable set
+	nAmbient, nFuncs := 0, 0
+	for f := range reach {
+		if f.Blocks == nil || strings.HasSuffix(c.Fset.Position(f.Pos()).Filename, "_test.go") {
+			continue
+		}
+		nFuncs++
+		for _, b := range f.Blocks {
+			for _, in := range b.Instrs {
+				call, ok := in.(ssa.CallInstruction)
+				if !ok {
+					continue
+				}
+				callee := call.Common().StaticCallee()
+				if callee == nil || callee.Pkg == nil {
+					continue
+				}
+				pp, name := callee.Pkg.Pkg.Path(), callee.Name()
+				ambient := false
+				switch pp {
+				case "time":
+					ambient = name == "Now" || name == "Since" || name == "Until"
+				case "math/rand", "math/rand/v2", "crypto/rand":
+					ambient = true
+				case "os":
+					ambient = name == "Getenv" || name == "LookupEnv" || name == "Hostname" || name == "Getpid" || name == "Getwd" || name == "Environ"
+				}
+				if ambient {
+					nAmbient++
+					c.Check("R20g", shortFn(f.String())+"|calls "+pp+"."+name, in.Pos(), false, "%s is reachable from the planners / differs / marshallers / formatter / checksum and reads %s.%s: the same inputs can give different output bytes", shortFn(f.String()), pp, name)
+				}
+			}
+		}
+	}
+	c.Check("R20g", "no ambient input in "+itoa(nFuncs)+" reachable functions", token.NoPos, nAmbient == 0 && nFuncs > 100, "ambient inputs found (or the reachable set collapsed to %d functions)", nFuncs)
 	type hit struct {
 		fn, glob string
 		pos      token.Pos
